@@ -1805,12 +1805,11 @@ func (d *Data) sendJSONValuesInRange(ctx storage.VersionedCtx, w http.ResponseWr
 				if err := json.Unmarshal(kv.V, &jsonData); err != nil {
 					return err
 				}
-				out := removeReservedFields(jsonData, showFields)
 				bodyid, err := parseKeyStr(key)
 				if err != nil {
 					return err
 				}
-				writeCh <- writeData{bodyid, out}
+				writeCh <- writeData{bodyid, jsonData} // fields are selected in selectData, as on the in-memory path
 				return nil
 			})
 			close(writeCh)
